@@ -40,8 +40,11 @@ fn main() {
         "C03" => props::c03::run(chk),
         "C04" => props::c04::run(chk),
         "C06" => props::c06::run(chk),
+        "C10" => props::c10::run(chk),
+        "C12" => props::c12::run(chk),
         "C13" => props::c13::run(chk),
         "C14" => props::c14::run(chk),
+        "C18" => props::c18::run(chk),
         _ => infra(&format!("no check for {id}")),
     }
 }
